@@ -25,12 +25,17 @@ def SEL(maxlen, scope, docset, funcs=False, spell='canon', fset='full'):
 
 def c01(tier):
     if tier == 'quick':
-        return [sel('pairs', 'C01', SEL(2, 'pairs', 'small'), ['LawFailsIffEmpty', 'Emit']), SLICES('C01'),
+        return [sel('pairs', 'C01', SEL(2, 'pairs', 'small'), ['LawFailsIffEmpty', 'Emit']), EXTRAS('C01'), SLICES('C01'),
                 traceB_eval(2500, 150000, 'C01,C03,C04', EVAL_ATTR)]
     return [sel('pairs', 'C01', SEL(2, 'pairs', 'full'), ['LawFailsIffEmpty', 'Emit'], timeout=1800), SLICES('C01'),
             traceB_eval(2500, 150000, 'C01,C03,C04', EVAL_ATTR),
             sel('triples', 'C01', SEL(3, 'triples', 'full'), ['LawFailsIffEmpty', 'Emit'], timeout=3600),
             sel('funcs', 'C01', SEL(2, 'triples', 'full', funcs=True), ['Emit'], timeout=1800)]
+
+
+def EXTRAS(prop, inv=('Emit',), funcs=False, **kw):
+    """special-purpose queries (nested `$` operands, bare `@` under && / ||, failing / nested aggregates, probe function) between plain steps"""
+    return sel('extras', prop, SEL(2, 'extras', 'small', funcs=funcs, fset='small'), list(inv), **kw)
 
 
 def SLICES(prop):
@@ -43,8 +48,8 @@ def simple_sel(prop, laws=(), extra=(), quick_scope='pairs'):
     def f(tier):
         inv = list(laws) + ['Emit']
         if tier == 'quick':
-            return [sel(quick_scope, prop, SEL(2, quick_scope, 'small'), inv)] + [e() if callable(e) else e for e in extra]
-        return [sel('pairs', prop, SEL(2, 'pairs', 'full'), inv, timeout=1800),
+            return [sel(quick_scope, prop, SEL(2, quick_scope, 'small'), inv), EXTRAS(prop)] + [e() if callable(e) else e for e in extra]
+        return [sel('pairs', prop, SEL(2, 'pairs', 'full'), inv, timeout=1800), EXTRAS(prop),
                 sel('triples', prop, SEL(3, 'triples', 'full'), inv, timeout=3600)] + [e() if callable(e) else e for e in extra]
     return f
 
@@ -52,28 +57,57 @@ def simple_sel(prop, laws=(), extra=(), quick_scope='pairs'):
 def c08(tier):
     law = lambda scope, n, docs, t=900: dict(kind='tlc', module='Gen_Select', label='law-compose-' + scope, constants=SEL(n, scope, docs), invariants=['LawCompose'], timeout=t)
     if tier == 'quick':
-        return [law('triples', 2, 'small'), sel('pairs', 'C08', SEL(2, 'pairs', 'small'), ['Emit'])]
+        return [law('triples', 2, 'small'), sel('pairs', 'C08', SEL(2, 'pairs', 'small'), ['Emit']), EXTRAS('C08')]
     return [law('pairs', 2, 'full', 3600), law('triples', 3, 'small', 7200), sel('pairs', 'C08', SEL(2, 'pairs', 'full'), ['Emit'], timeout=3600),
             sel('triples', 'C08', SEL(3, 'triples', 'full'), ['Emit'], timeout=7200)]
 
 
+def mech(scope, n, docs, timeout=1800, funcs=False):
+    scope = scope.replace('-funcs', '')
+    c = SEL(n, scope, docs, funcs=funcs)
+    c['InnerTextMissing'] = False
+    return dict(kind='tlc', module='MC_Mech', label='mech-refines-L1-' + scope, constants=c, invariants=['LawMechRefines'], timeout=timeout)
+
+
+def mech_mutant():
+    def fn(pid, tier, sdir, harness, known):
+        c = SEL(2, 'triples', 'small')
+        c['InnerTextMissing'] = True
+        st = vlib.run_tlc_only(sdir, 'MC_Mech', c, ['LawMechRefines'], 900, 'mech-inner-text-missing')
+        if 'Invariant LawMechRefines is violated' not in open(st['log'], errors='replace').read():
+            raise Infra('Mech with InnerTextMissing=TRUE no longer violates the refinement: the model lost its sensitivity')
+        return dict(tlc_runs=[{k: st[k] for k in ('label', 'cmd', 'generated', 'distinct', 'wall_s')}], counters={'mutant-model-killed': 1}, exhaustive=True)
+    return dict(kind='custom', fn=fn)
+
+
+def c15(tier):
+    if tier == 'quick':
+        return [mech('triples', 2, 'small'), sel('pairs', 'C15', SEL(2, 'pairs', 'small'), ['Emit']), EXTRAS('C15'), traceB_eval(6000, 200000, 'C15', EVAL_ATTR)]
+    return [mech('pairs', 2, 'small', 7200), mech('triples', 3, 'small', 7200), mech_mutant(),
+            sel('pairs', 'C15', SEL(2, 'pairs', 'full'), ['Emit'], timeout=3600), sel('triples', 'C15', SEL(3, 'triples', 'full'), ['Emit'], timeout=7200),
+            traceB_eval(6000, 200000, 'C15', EVAL_ATTR)]
+
+
 def c14(tier):
     if tier == 'quick':
-        return [sel('funcs', 'C14', SEL(2, 'triples', 'small', funcs=True, fset='small'), ['Emit'])]
-    return [sel('funcs', 'C14', SEL(2, 'triples', 'full', funcs=True), ['Emit'], timeout=1800),
+        return [sel('funcs', 'C14', SEL(2, 'triples', 'small', funcs=True, fset='small'), ['Emit']), EXTRAS('C14')]
+    return [mech('triples-funcs', 2, 'small', 7200, funcs=True), EXTRAS('C14'), sel('funcs', 'C14', SEL(2, 'triples', 'full', funcs=True), ['Emit'], timeout=1800),
             sel('funcs-pairs', 'C14', SEL(2, 'pairs', 'small', funcs=True), ['Emit'], timeout=3600)]
 
 
 def c12(tier):
     if tier == 'quick':
-        return [sel('funcs', 'C12', SEL(2, 'triples', 'small', funcs=True, fset='small'), ['Emit'])]
+        return [sel('funcs', 'C12', SEL(2, 'triples', 'small', funcs=True, fset='small'), ['Emit']), EXTRAS('C12'),
+                sel('omitted-root', 'C12', SEL(2, 'triples', 'tiny', spell='omit'), ['Emit'], opts='allspell=1')]
     return [sel('funcs', 'C12', SEL(2, 'triples', 'full', funcs=True), ['Emit'], timeout=3600),
             sel('pairs', 'C12', SEL(2, 'pairs', 'full'), ['Emit'], timeout=3600)]
 
 
 def c18(tier):
     if tier == 'quick':
-        return [sel('spellings', 'C18', SEL(2, 'triples', 'small', spell='all'), ['Emit']), roundtrip('roundtrip-atoms', 'C18', 'atoms')]
+        return [sel('spellings', 'C18', SEL(2, 'triples', 'small', spell='all'), ['Emit']),
+                sel('omitted-root-funcs', 'C18', SEL(2, 'triples', 'tiny', funcs=True, spell='omit', fset='small'), ['Emit']),
+                roundtrip('roundtrip-atoms', 'C18', 'atoms')]
     return [sel('spellings', 'C18', SEL(2, 'pairs', 'small', spell='all'), ['Emit'], timeout=3600),
             sel('all-64-spellings', 'C18', SEL(2, 'triples', 'small', spell='all64'), ['Emit'], timeout=7200),
             roundtrip('roundtrip-atoms', 'C18', 'atoms'), roundtrip('roundtrip-steps', 'C18', 'steps', 7200),
@@ -262,11 +296,24 @@ def filterproto_mutant():
     return dict(kind='custom', fn=fn)
 
 
+def lawfuzz():
+    """C09 duality laws (oracle-free) on adjacent floats / huge / tiny numbers, outside the three-decimal model"""
+    def fn(pid, tier, sdir, harness, known):
+        r = subprocess.run([harness, 'lawfuzz', '-seed', str(vlib.SEED), '-n', '1500' if tier == 'quick' else '40000'], capture_output=True, text=True, cwd=sdir)
+        if r.returncode != 0:
+            raise Infra('lawfuzz failed: ' + r.stderr[-800:])
+        o = json.loads(r.stdout)
+        viol = [{'property': 'C09', 'kind': 'law-on-adjacent-floats', 'path': v[:200], 'document': '', 'signature': 'lawfuzz', 'detail': v,
+                 'case': json.dumps({'fam': 'lawfuzz', 'seed': vlib.SEED})} for v in (o.get('violations') or [])[:3]]
+        return dict(tlc_runs=[], cases=o['checked'], distinct=0, counters={'lawfuzz-relations-checked': o['checked']}, samples=[], violations=viol, known_hits=[], exhaustive=False)
+    return dict(kind='custom', fn=fn)
+
+
 def c09(tier):
     if tier == 'quick':
-        return [filterproto(1), filt('atoms', 'C09', 2, 1, 'both', 'all'), filt('pairs', 'C09', 2, 2, 'arr', 'two')]
+        return [filterproto(1), filt('atoms', 'C09', 2, 1, 'both', 'all'), filt('pairs', 'C09', 2, 2, 'arr', 'two'), lawfuzz()]
     return [filterproto(2, 3600), filterproto_mutant(), filt('atoms', 'C09', 3, 1, 'both', 'all', 7200), filt('pairs', 'C09', 2, 2, 'both', 'all', 7200),
-            filt('triples', 'C09', 2, 3, 'arr', 'two', 7200)]
+            filt('triples', 'C09', 2, 3, 'arr', 'two', 7200), lawfuzz()]
 
 
 def c10(tier):
@@ -463,7 +510,7 @@ CHECKS = {
     'C12': dict(stages=c12, level='model_checking'),
     'C13': dict(stages=simple_sel('C13', ['LawLocs']), level='model_checking'),
     'C14': dict(stages=c14, level='model_checking'),
-    'C15': dict(stages=simple_sel('C15', extra=[lambda: traceB_eval(6000, 200000, 'C15', EVAL_ATTR)]), level='model_checking'),
+    'C15': dict(stages=c15, level='model_checking'),
     'C16': dict(stages=c16, level='model_checking'),
     'C17': dict(stages=c17, level='model_checking'),
     'C18': dict(stages=c18, level='model_checking'),
